@@ -46,7 +46,7 @@ Print Assumptions C08_reachable_states_quiet.
     uncached cells passed through).  preds() = the calls made; succs() is the
     same edge set read backwards. *)
 Theorem C08_preds_are_exactly_the_reads : forall fuel cells refs maxd ops xs st,
-  defs_ok cells -> refn_ok (init cells refs maxd) -> ops_ok2 fuel (init cells refs maxd) ops ->
+  refn_ok (init cells refs maxd) -> ops_ok2 fuel (init cells refs maxd) ops ->
   run fuel (init cells refs maxd) ops = (xs, st) -> no_fuel_out xs -> s_reent st = false ->
   forall j v, lookup_data (s_data st) j = Some v -> mem_item j (s_inputs st) = false ->
   exists f ds, dr_own f (defs_of st) (input_data st) j = (Val v, ds) /\
@@ -66,7 +66,7 @@ Print Assumptions C08_step_keeps_exactness.
     read, and what is read is evaluated by the specification with strictly
     less fuel than its reader: a cycle would be an infinite descent.) *)
 Theorem C08_acyclic : forall fuel cells refs maxd ops xs st,
-  defs_ok cells -> refn_ok (init cells refs maxd) -> ops_ok2 fuel (init cells refs maxd) ops ->
+  refn_ok (init cells refs maxd) -> ops_ok2 fuel (init cells refs maxd) ops ->
   run fuel (init cells refs maxd) ops = (xs, st) -> no_fuel_out xs -> s_reent st = false ->
   forall a b, In (a, b) (s_edges st) -> ~ path (s_edges st) b a.
 Proof. exact reachable_graph_acyclic. Qed.
